@@ -42,6 +42,8 @@ type scheduler struct {
 	trace   []string // "T<tid>@<point>" in the order the controller resumed from them
 	choices []int    // schedule prefix; afterwards `fallback`
 	fallback func(n int) int
+	policy   func(s *scheduler, enabled []*sthread) int // used after the choice prefix, before fallback
+	lastTid  int                                         // thread resumed by the previous decision (-1 at the start)
 	branch  []int // branching factor seen at each decision (for systematic enumeration)
 	taken   []int
 	blockTO time.Duration
@@ -60,7 +62,7 @@ func curGoid() uint64 {
 }
 
 func newScheduler(choices []int, fallback func(int) int) *scheduler {
-	return &scheduler{byGoid: map[uint64]*sthread{}, ctl: make(chan sevent, 256), choices: choices, fallback: fallback, blockTO: 8 * time.Millisecond}
+	return &scheduler{byGoid: map[uint64]*sthread{}, ctl: make(chan sevent, 256), choices: choices, fallback: fallback, blockTO: 8 * time.Millisecond, lastTid: -1}
 }
 
 func (s *scheduler) yield(point string) {
@@ -147,12 +149,15 @@ func (s *scheduler) run() bool {
 		d := len(s.taken)
 		if d < len(s.choices) {
 			k = s.choices[d] % n
+		} else if s.policy != nil {
+			k = s.policy(s, enabled) % n
 		} else if s.fallback != nil {
 			k = s.fallback(n) % n
 		}
 		s.taken = append(s.taken, k)
 		s.branch = append(s.branch, n)
 		th := enabled[k]
+		s.lastTid = th.tid
 		s.trace = append(s.trace, fmt.Sprintf("T%d@%s", th.tid, th.point))
 		th.state = "running"
 		th.resume <- struct{}{}
@@ -227,9 +232,43 @@ type scenario struct {
 var schedMu sync.Mutex // one controlled execution at a time (the yield hook is global)
 
 func runSchedule(sc scenario, choices []int, fallback func(int) int) schedOutcome {
+	return runSchedulePol(sc, choices, fallback, nil)
+}
+
+// preemptPolicy: run the current thread as long as it is enabled (no preemption), otherwise the first
+// enabled thread in the priority order `prio`; at decision `at` switch to thread `to` if it is enabled
+// (one forced preemption; at < 0: none)
+func preemptPolicy(prio []int, at, to int) func(*scheduler, []*sthread) int {
+	return func(s *scheduler, enabled []*sthread) int {
+		d := len(s.taken)
+		if d == at {
+			for i, th := range enabled {
+				if th.tid == to {
+					return i
+				}
+			}
+		}
+		for i, th := range enabled {
+			if th.tid == s.lastTid {
+				return i
+			}
+		}
+		for _, want := range prio {
+			for i, th := range enabled {
+				if th.tid == want {
+					return i
+				}
+			}
+		}
+		return 0
+	}
+}
+
+func runSchedulePol(sc scenario, choices []int, fallback func(int) int, policy func(*scheduler, []*sthread) int) schedOutcome {
 	schedMu.Lock()
 	defer schedMu.Unlock()
 	s := newScheduler(choices, fallback)
+	s.policy = policy
 	column.VerifSetYield(s.yield)
 	check, cleanup := sc.build(s)
 	ok := s.run()
@@ -273,7 +312,13 @@ func explore(rep *Report, sc scenario, systematic, random int, rnd func(int) int
 				return // a listed finding, not a new violation
 			}
 		}
-		if o.fail != "" && (classes[o.class] || o.class == "deadlock" || o.class == "panic") {
+		mine := false
+		for _, cl := range strings.Split(o.class, ",") {
+			if classes[cl] {
+				mine = true
+			}
+		}
+		if o.fail != "" && (mine || o.class == "deadlock" || o.class == "panic") {
 			if len(rep.Violations) < 5 {
 				v := Violation{Property: rep.Property, Kind: "oracle", Clause: fmt.Sprintf("[%s] %s", sc.name, o.fail),
 					Script: []string{"scenario " + sc.name, "choices " + intsToString(o.choices), "trace " + strings.Join(o.trace, " ")}}
@@ -287,6 +332,60 @@ func explore(rep *Report, sc scenario, systematic, random int, rnd func(int) int
 	}
 	var choices []int
 	exhausted := false
+	// phase 0: preemption-bounded schedules — every priority rotation without preemption, then one forced
+	// switch at every decision to every thread (most protocol bugs need one or two preemptions)
+	first := runSchedulePol(sc, nil, nil, preemptPolicy(nil, -1, 0))
+	record(first)
+	nThreads := 0
+	for _, t := range first.trace {
+		var tid int
+		fmt.Sscanf(t, "T%d@", &tid)
+		if tid+1 > nThreads {
+			nThreads = tid + 1
+		}
+	}
+	depth := len(first.choices) + 2
+	budget0 := systematic
+	type pp struct{ rot, at, to int }
+	var plans []pp
+	for rot := 0; rot < nThreads; rot++ {
+		plans = append(plans, pp{rot, -1, 0})
+	}
+	for at := 0; at < depth; at++ {
+		for to := 0; to < nThreads; to++ {
+			for rot := 0; rot < nThreads; rot++ {
+				plans = append(plans, pp{rot, at, to})
+			}
+		}
+	}
+	if len(plans) > budget0 {
+		// keep all rotation-0 plans first, then sample the rest deterministically from the seed
+		var keep, rest []pp
+		for _, p := range plans {
+			if p.rot == 0 || p.at < 0 {
+				keep = append(keep, p)
+			} else {
+				rest = append(rest, p)
+			}
+		}
+		for len(keep) < budget0 && len(rest) > 0 {
+			i := rnd(len(rest))
+			keep = append(keep, rest[i])
+			rest = append(rest[:i], rest[i+1:]...)
+		}
+		if len(keep) > budget0 {
+			keep = keep[:budget0]
+		}
+		plans = keep
+	}
+	for _, p := range plans {
+		prio := make([]int, nThreads)
+		for i := range prio {
+			prio[i] = (i + p.rot) % nThreads
+		}
+		record(runSchedulePol(sc, nil, nil, preemptPolicy(prio, p.at, p.to)))
+	}
+	rep.count("preemption-bounded:" + sc.name)
 	for i := 0; i < systematic; i++ {
 		o := runSchedule(sc, choices, nil)
 		record(o)
